@@ -6,6 +6,8 @@ mod analysis;
 mod batch;
 mod c21;
 mod c22;
+mod c23;
+mod c24;
 mod compare;
 mod emit;
 mod gen;
@@ -16,6 +18,7 @@ mod reduce;
 mod rewrite;
 mod sem;
 mod shape;
+mod templates;
 
 use vcommon::{Args, Ctx};
 
@@ -29,6 +32,8 @@ fn main() {
     match prop.as_str() {
         "C21" => c21::run(&mut ctx),
         "C22" => c22::run(&mut ctx),
+        "C23" => c23::run(&mut ctx),
+        "C24" => c24::run(&mut ctx),
         _ => {
             eprintln!("dfirsem does not serve property {prop}");
             std::process::exit(2);
